@@ -1,5 +1,6 @@
 import Eav.Model
 import Eav.Cost
+import Eav.CostEmail
 import Eav.Gen.Enums
 /-!
 Line-protocol driver for the model (`lean_exe eavdrv`): reads the op file written by the C harness
@@ -154,6 +155,9 @@ def handle (be : Backend) (b : Build) (toks : List String) : String :=
   | ["c6", s, a] => "c6 " ++ toString (isIpv6T (unhex s) (unhex a)).2
   | ["cS", s] => "cS " ++ toString (specialTicks (unhex s))
   | ["cT", s] => "cT " ++ toString (tldTicks Gen.tldTable (unhex s))
+  | "cE" :: m :: t :: s :: rest =>
+    let c := (parseConvs rest).head?.getD noConv
+    "cE " ++ toString (emailTicks b (fun _ => c) (modeOf m) (unhex s) (t == "1"))
   | "U" :: t :: s :: rest =>
     let c := (parseConvs rest).head?.getD noConv
     match isUtf8Domain b (fun _ => c) (unhex s) (t == "1") with
